@@ -3,7 +3,17 @@
 package extendeddaemonsetreplicaset
 
 import (
+	"context"
 	"strconv"
+	"time"
+
+	"github.com/go-logr/logr"
+	"k8s.io/apimachinery/pkg/types"
+	"k8s.io/apimachinery/pkg/util/intstr"
+	"sigs.k8s.io/controller-runtime/pkg/reconcile"
+
+	edsctrl "github.com/DataDog/extendeddaemonset/controllers/extendeddaemonset"
+	"github.com/DataDog/extendeddaemonset/pkg/controller/utils/comparison"
 
 	corev1 "k8s.io/api/core/v1"
 	metav1 "k8s.io/apimachinery/pkg/apis/meta/v1"
@@ -266,4 +276,89 @@ func ZZ_C04_labelAfterPromotion() {
 	nondet.Assert("C04.promoted.label-removed", !labelled)
 	nondet.Observe("labelled", labelled)
 	nondet.Reach("C04.promoted.while-frozen", ann == "rollout-frozen")
+}
+
+// ZZ_C04_listUnderSchedules: "the controller never adds nodes to that list beyond the resolved
+// spec.strategy.canary.replicas" under every interleaving of the controllers.  Four eligible
+// nodes served by the active replica set foo-old, spec.template just changed, canary replicas
+// 50% (= 2 of the 4 targeted nodes) or the integer 2.  Then a symbolic schedule of k steps, each
+// running one real reconcile — the ExtendedDaemonSet, the active replica set, or the canary
+// replica set (once it exists) — with the clock standing still (so a replica set that synced is
+// gated by reconcileFrequency, as in a burst of events).  After every step the list holds at most
+// two distinct nodes, and once selected its length never exceeds two.
+func ZZ_C04_listUnderSchedules() {
+	const nNodes = 4
+	steps := 5
+	if nondet.Thorough() {
+		steps = 7
+	}
+	c := fakeapi.New()
+	ds := &datadoghqv1alpha1.ExtendedDaemonSet{ObjectMeta: metav1.ObjectMeta{Name: zzEDSName, Namespace: zzNS, UID: "uid-foo", Annotations: map[string]string{}}}
+	tpl := func(id string) corev1.PodTemplateSpec {
+		return corev1.PodTemplateSpec{ObjectMeta: metav1.ObjectMeta{Labels: map[string]string{"app": "agent"}},
+			Spec: corev1.PodSpec{Containers: []corev1.Container{{Name: "agent", Image: "agent:" + id}}}}
+	}
+	ds.Spec.Template = tpl("B")
+	replicas := intstr.FromString("50%")
+	if nondet.Bool("replicasAsInteger") {
+		replicas = intstr.FromInt(2)
+	}
+	ds.Spec.Strategy.Canary = &datadoghqv1alpha1.ExtendedDaemonSetSpecStrategyCanary{Replicas: &replicas, Duration: &metav1.Duration{Duration: time.Hour}}
+	datadoghqv1alpha1.DefaultExtendedDaemonSetSpec(&ds.Spec, datadoghqv1alpha1.ExtendedDaemonSetSpecStrategyCanaryValidationModeAuto)
+	tA := tpl("A")
+	hashA, _ := comparison.GenerateMD5PodTemplateSpec(&tA)
+	rsA := zzRS("foo-a", hashA)
+	rsA.Spec.Template = tA
+	rsA.Annotations = map[string]string{datadoghqv1alpha1.MD5ExtendedDaemonSetAnnotationKey: hashA}
+	rsA.CreationTimestamp = metav1.NewTime(nondet.Base().Add(-24 * time.Hour))
+	rsA.Status.Status = "active"
+	rsA.Status.Desired, rsA.Status.Current, rsA.Status.Ready, rsA.Status.Available = nNodes, nNodes, nNodes, nNodes
+	c.ERS = append(c.ERS, rsA)
+	ds.Status.ActiveReplicaSet = "foo-a"
+	ds.Status.State = datadoghqv1alpha1.ExtendedDaemonSetStatusStateRunning
+	ds.Status.Desired, ds.Status.Current, ds.Status.Ready, ds.Status.Available, ds.Status.UpToDate = nNodes, nNodes, nNodes, nNodes, nNodes
+	for i := 0; i < nNodes; i++ {
+		c.Nodes = append(c.Nodes, &corev1.Node{ObjectMeta: metav1.ObjectMeta{Name: zzNodeName(i), Labels: map[string]string{}}})
+		c.Pods = append(c.Pods, zzPod("a-"+zzNodeName(i), zzNodeName(i), "foo-a", hashA, 0, corev1.PodRunning, true, nondet.Base().Add(-time.Hour)))
+	}
+	c.EDS = append(c.EDS, ds)
+	edsRec, _ := edsctrl.NewReconciler(edsctrl.ReconcilerOptions{DefaultValidationMode: datadoghqv1alpha1.ExtendedDaemonSetSpecStrategyCanaryValidationModeAuto}, c, c.Scheme(), logr.Logger{}, &fakeapi.Recorder{})
+
+	maxSeen := 0
+	for s := 0; s < steps; s++ {
+		switch nondet.String("step"+strconv.Itoa(s), "eds", "active-rs", "canary-rs") {
+		case "eds":
+			_, _ = edsRec.Reconcile(context.TODO(), reconcile.Request{NamespacedName: types.NamespacedName{Namespace: zzNS, Name: zzEDSName}})
+		case "active-rs":
+			_, _ = zzReconcile(zzReconciler(c, false), zzNS, "foo-a")
+		default:
+			name := ""
+			for _, rs := range c.ERS {
+				if rs.Name != "foo-a" {
+					name = rs.Name
+				}
+			}
+			if name == "" {
+				nondet.Assume(false) // no canary replica set yet: not a step
+			}
+			_, _ = zzReconcile(zzReconciler(c, false), zzNS, name)
+		}
+		cur := c.EDS[0]
+		if cur.Status.Canary != nil {
+			n := len(cur.Status.Canary.Nodes)
+			if n > maxSeen {
+				maxSeen = n
+			}
+			// "never adds nodes to that list beyond the resolved spec.strategy.canary.replicas"
+			// (50% of the four nodes the ExtendedDaemonSet targets, rounded up, or the integer 2)
+			nondet.Assert("C04.sched.list-within-replicas", n <= 2)
+			for i := 0; i < n; i++ {
+				for j := i + 1; j < n; j++ {
+					nondet.Assert("C04.sched.distinct", cur.Status.Canary.Nodes[i] != cur.Status.Canary.Nodes[j])
+				}
+			}
+		}
+	}
+	nondet.Observe("maxListLength", maxSeen)
+	nondet.Reach("C04.sched.canary-selected", maxSeen == 2)
 }
